@@ -110,6 +110,9 @@ SEED_CORPUS = {
         "/t": "<%! import os %><%page args=\"pa=1, pb=2\"/><% la = 1; lb = 2; lc = la + lb %>"
               "<%def name=\"a(x, y=1)\">${x}${y}${z}${w}${la if False else ''}</%def><%def name=\"b()\">${a(1)}${q}${r}${s}<%def name=\"inner()\">${q}${z}</%def>${inner()}</%def>\n"
               "% for i in items:\n${i}${a(i)}${b()}${lc}${pa}${pb}\n% endfor\n<%block name=\"blk\">${z}${w}${q}</%block>"},
+    "nested-def-defaults": {
+        # the default of a nested def reads a context variable: the variable must be fetched before the closure is defined
+        "/t": '<%def name="g()"><%def name="f(a=z)">${a}</%def><%def name="f2(b=w, c=q)">${b}${c}</%def>${f()}${f2()}</%def>${g()}'},
     "inheritance": {
         "/t": "<%inherit file='/base'/><%namespace name='n1' file='/widgets' import='label'/><%def name='d()'>${label()}${z}</%def><%block name='x'>${d()}${q}</%block>body ${w}",
         "/base": "<%namespace name='n2' file='/forms' import='*'/>B(${label()} <%block name='x'>bx</%block> ${next.body()} ${self.d()})",
